@@ -106,6 +106,7 @@ pub mod c13;
 pub mod c01;
 pub mod c14;
 pub mod c17;
+pub mod c29;
 pub mod c31;
 pub mod c32;
 
@@ -115,6 +116,7 @@ pub fn registry() -> Vec<(&'static str, fn(&mut ByteSrc))> {
     v.extend_from_slice(c12::LIST);
     v.extend_from_slice(c13::LIST);
     v.extend_from_slice(c17::LIST);
+    v.extend_from_slice(c29::LIST);
     v.extend_from_slice(c01::LIST);
     v.extend_from_slice(c14::LIST);
     v.extend_from_slice(c31::LIST);
